@@ -4,6 +4,7 @@ package harness
 
 import (
 	"context"
+	"time"
 	"fmt"
 	"net/http"
 	"os"
@@ -49,6 +50,9 @@ type Node struct {
 	Incarn     int
 	CfgTweak   func(*config.Config)
 	Encryption bool
+	starting   bool
+	// OnStarted runs on the booting task right after the server object exists (before its loops start)
+	OnStarted func(n *Node)
 }
 
 func init() {
@@ -70,7 +74,22 @@ func NewWorld(s *simrt.Sim, n int) *World {
 		w.Nodes = append(w.Nodes, nd)
 		w.Etcd.AddMember(i, nd.Name, nd.PeerURL, nd.ClientURL)
 	}
-	s.OnTeardown = append(s.OnTeardown, cancel)
+	s.OnPanic = func(node int, msg string) {
+		// an unrecovered panic kills the PD process; a supervisor restarts it
+		if node < 0 || node >= len(w.Nodes) {
+			return
+		}
+		nd := w.Nodes[node]
+		s.Count("anomaly.pd-panic")
+		s.Spawn(-1, "panic-supervisor", func() {
+			if nd.Up {
+				nd.Crash()
+			}
+			simrt.Sleep(time.Second)
+			nd.Start()
+		})
+	}
+	s.OnTeardown = append(s.OnTeardown, cancel, simdisk.CloseAll)
 	return w
 }
 
@@ -94,6 +113,11 @@ func (n *Node) config() (*config.Config, error) {
 // a task of this node for the duration of start-up (so that a crash kills it).
 func (n *Node) Start() error {
 	w := n.W
+	if n.Up || n.starting {
+		return nil
+	}
+	n.starting = true
+	defer func() { n.starting = false }()
 	w.Sim.ReviveNode(n.ID)
 	done := make(chan error, 1)
 	n.Incarn++
@@ -113,6 +137,9 @@ func (n *Node) Start() error {
 			return
 		}
 		n.Srv, n.Client = srv, cl
+		if n.OnStarted != nil {
+			n.OnStarted(n)
+		}
 		w.Net.Register(n.ClientURL, n.ID, ctx, srv)
 		srv.SimStartLoops(n.Encryption)
 		n.Up = true
